@@ -200,7 +200,7 @@ func init() {
 		wxs, wys := []uint8{7, 87, 166}, []uint8{0, 72, 143}
 		pals := []uint8{0xe4, 0x1b}
 		if th {
-			scroll = []uint8{0, 1, 7, 8, 128, 255}
+			scroll = []uint8{0, 1, 4, 7, 8, 9, 128, 200, 255}
 			wxs, wys = []uint8{7, 8, 87, 166}, []uint8{0, 1, 72, 143}
 			pals = []uint8{0xe4, 0x1b, 0x6c}
 		}
@@ -208,25 +208,33 @@ func init() {
 		explore.Product(c.R, "background-window", explore.PartOpt{History: 64, Bound: "one frame per scene (the emulator instance is reused from scene to scene, LCD off/on in between)", Domain: fmt.Sprintf("map x addressing x SCX,SCY in %v x window off/WX %v x WY %v x window map x palettes %02x, 3 fixed objects", scroll, wxs, wys, pals)},
 			func(yield func(c15Scene) bool) {
 				objs := []c15Obj{{40, 20, 5, 0x00}, {60, 90, 9, 0x90}, {100, 150, 300 & 0xff, 0x60}}
-				for _, mapHi := range []uint8{0, 0x08} {
-					for _, addr := range []uint8{0, 0x10} {
-						for _, sx := range scroll {
-							for _, sy := range scroll {
-								for _, pal := range pals {
-									s := base
-									s.LCDC = 0x03 | mapHi | addr
-									s.SCX, s.SCY, s.BGP, s.Objs = sx, sy, pal, objs
-									if !yield(s) {
-										return
-									}
-									for _, wmap := range []uint8{0, 0x40} {
-										for _, wx := range wxs {
-											for _, wy := range wys {
-												w := s
-												w.LCDC |= 0x20 | wmap
-												w.WX, w.WY = wx, wy
-												if !yield(w) {
-													return
+				sets := []int{set}
+				if th {
+					sets = []int{0, 1, 2} // every fixed tile-data/tile-map set, not only the one VERIF_SEED selects
+				}
+				for _, tset := range sets {
+					base := base
+					base.Set = tset
+					for _, mapHi := range []uint8{0, 0x08} {
+						for _, addr := range []uint8{0, 0x10} {
+							for _, sx := range scroll {
+								for _, sy := range scroll {
+									for _, pal := range pals {
+										s := base
+										s.LCDC = 0x03 | mapHi | addr
+										s.SCX, s.SCY, s.BGP, s.Objs = sx, sy, pal, objs
+										if !yield(s) {
+											return
+										}
+										for _, wmap := range []uint8{0, 0x40} {
+											for _, wx := range wxs {
+												for _, wy := range wys {
+													w := s
+													w.LCDC |= 0x20 | wmap
+													w.WX, w.WY = wx, wy
+													if !yield(w) {
+														return
+													}
 												}
 											}
 										}
